@@ -514,6 +514,141 @@ void run_program(const ProgId &id) {
 
 } // namespace
 
+// ---- statement table: cloning and block merging preserve EVERY statement kind -----------------
+// cfg::clone() and cfg::simplify() re-create statements through statement::clone(). For each
+// statement kind of CrabIR (also those the concrete interpreter does not execute: arrays, regions,
+// references, calls, intrinsics) a three-block chain b0 -> b1:[s] -> b2 is cloned and simplified;
+// the printed statement must be unchanged in the clone and must survive the merge verbatim.
+long long n_table = 0;
+void statement_table() {
+  using namespace crab::cfg_impl;
+  typedef ikos::z_number zn;
+  typedef crab::variable_or_constant<ikos::z_number, varname_t> voc_t;
+  auto V = [](int i) { return var(i); };
+  typedef std::function<void(z_basic_block_t &)> mkfn;
+  std::vector<std::pair<std::string, mkfn>> T;
+  auto lx = [&](int v, long k) { return lexp_t(V(v)) + zn((int64_t)k); };
+  auto le = [&](int a, int b, long k) { return lcst_t(lexp_t(V(a)) - lexp_t(V(b)) <= zn((int64_t)k)); };
+  T.push_back({"add_vv", [&](z_basic_block_t &b) { b.add(V(VX), V(VY), V(VZ)); }});
+  T.push_back({"add_vk", [&](z_basic_block_t &b) { b.add(V(VX), V(VY), zn(3)); }});
+  T.push_back({"sub_vv", [&](z_basic_block_t &b) { b.sub(V(VX), V(VY), V(VZ)); }});
+  T.push_back({"sub_vk", [&](z_basic_block_t &b) { b.sub(V(VX), V(VY), zn(3)); }});
+  T.push_back({"mul_vv", [&](z_basic_block_t &b) { b.mul(V(VX), V(VY), V(VZ)); }});
+  T.push_back({"mul_vk", [&](z_basic_block_t &b) { b.mul(V(VX), V(VY), zn(3)); }});
+  T.push_back({"div_vv", [&](z_basic_block_t &b) { b.div(V(VX), V(VY), V(VZ)); }});
+  T.push_back({"div_vk", [&](z_basic_block_t &b) { b.div(V(VX), V(VY), zn(3)); }});
+  T.push_back({"udiv_vv", [&](z_basic_block_t &b) { b.udiv(V(VX), V(VY), V(VZ)); }});
+  T.push_back({"udiv_vk", [&](z_basic_block_t &b) { b.udiv(V(VX), V(VY), zn(3)); }});
+  T.push_back({"rem_vv", [&](z_basic_block_t &b) { b.rem(V(VX), V(VY), V(VZ)); }});
+  T.push_back({"rem_vk", [&](z_basic_block_t &b) { b.rem(V(VX), V(VY), zn(3)); }});
+  T.push_back({"urem_vv", [&](z_basic_block_t &b) { b.urem(V(VX), V(VY), V(VZ)); }});
+  T.push_back({"urem_vk", [&](z_basic_block_t &b) { b.urem(V(VX), V(VY), zn(3)); }});
+  T.push_back({"and_vv", [&](z_basic_block_t &b) { b.bitwise_and(V(VX), V(VY), V(VZ)); }});
+  T.push_back({"and_vk", [&](z_basic_block_t &b) { b.bitwise_and(V(VX), V(VY), zn(3)); }});
+  T.push_back({"or_vv", [&](z_basic_block_t &b) { b.bitwise_or(V(VX), V(VY), V(VZ)); }});
+  T.push_back({"or_vk", [&](z_basic_block_t &b) { b.bitwise_or(V(VX), V(VY), zn(3)); }});
+  T.push_back({"xor_vv", [&](z_basic_block_t &b) { b.bitwise_xor(V(VX), V(VY), V(VZ)); }});
+  T.push_back({"xor_vk", [&](z_basic_block_t &b) { b.bitwise_xor(V(VX), V(VY), zn(3)); }});
+  T.push_back({"shl_vv", [&](z_basic_block_t &b) { b.shl(V(VX), V(VY), V(VZ)); }});
+  T.push_back({"shl_vk", [&](z_basic_block_t &b) { b.shl(V(VX), V(VY), zn(3)); }});
+  T.push_back({"lshr_vv", [&](z_basic_block_t &b) { b.lshr(V(VX), V(VY), V(VZ)); }});
+  T.push_back({"lshr_vk", [&](z_basic_block_t &b) { b.lshr(V(VX), V(VY), zn(3)); }});
+  T.push_back({"ashr_vv", [&](z_basic_block_t &b) { b.ashr(V(VX), V(VY), V(VZ)); }});
+  T.push_back({"ashr_vk", [&](z_basic_block_t &b) { b.ashr(V(VX), V(VY), zn(3)); }});
+  T.push_back({"assign", [&](z_basic_block_t &b) { b.assign(V(VX), lx(VY, 2) + lexp_t(V(VZ)) * zn(3)); }});
+  T.push_back({"assume", [&](z_basic_block_t &b) { b.assume(le(VX, VY, 2)); }});
+  T.push_back({"havoc", [&](z_basic_block_t &b) { b.havoc(V(VX)); }});
+  T.push_back({"unreachable", [&](z_basic_block_t &b) { b.unreachable(); }});
+  T.push_back({"select_cst", [&](z_basic_block_t &b) { b.select(V(VX), le(VY, VZ, 0), lx(VY, 1), lx(VZ, 2)); }});
+  T.push_back({"select_var", [&](z_basic_block_t &b) { b.select(V(VX), V(VW), lx(VY, 1), lx(VZ, 2)); }});
+  T.push_back({"assert", [&](z_basic_block_t &b) { b.assertion(le(VX, VY, 2), crab::cfg::debug_info("f.c", 7, 3, 41)); }});
+  T.push_back({"trunc", [&](z_basic_block_t &b) { b.truncate(V(VX), V(VS8)); }});
+  T.push_back({"sext", [&](z_basic_block_t &b) { b.sext(V(VS8), V(VX)); }});
+  T.push_back({"zext", [&](z_basic_block_t &b) { b.zext(V(VX), V(VL64)); }});
+  T.push_back({"callsite", [&](z_basic_block_t &b) { b.callsite("g", {V(VX), V(VY)}, {V(VZ), V(VW)}); }});
+  T.push_back({"intrinsic", [&](z_basic_block_t &b) { b.intrinsic("foo", {V(VX)}, {voc_t(V(VY)), voc_t(zn(5), crab::variable_type(crab::INT_TYPE, 32))}); }});
+  T.push_back({"array_init", [&](z_basic_block_t &b) { b.array_init(V(VA), lexp_t(zn(0)), lexp_t(zn(15)), lx(VX, 1), lexp_t(zn(4))); }});
+  T.push_back({"array_store", [&](z_basic_block_t &b) { b.array_store(V(VA), lx(VI, 4), lx(VX, 1), lexp_t(zn(4))); }});
+  T.push_back({"array_store_strong", [&](z_basic_block_t &b) { b.array_store(V(VS), lexp_t(zn(0)), lx(VX, 1), lexp_t(zn(4)), true); }});
+  T.push_back({"array_store_range", [&](z_basic_block_t &b) { b.array_store_range(V(VA), lexp_t(zn(0)), lx(VI, 3), lx(VX, 1), lexp_t(zn(4))); }});
+  T.push_back({"array_load", [&](z_basic_block_t &b) { b.array_load(V(VX), V(VA), lx(VI, 4), lexp_t(zn(4))); }});
+  T.push_back({"array_assign", [&](z_basic_block_t &b) { b.array_assign(V(VA2), V(VA)); }});
+  T.push_back({"region_init", [&](z_basic_block_t &b) { b.region_init(V(VR1)); }});
+  T.push_back({"region_copy", [&](z_basic_block_t &b) { b.region_copy(V(VR2), V(VR1)); }});
+  T.push_back({"region_cast", [&](z_basic_block_t &b) { b.region_cast(V(VR1), V(VR2)); }});
+  T.push_back({"make_ref", [&](z_basic_block_t &b) { b.make_ref(V(VP), V(VR1), voc_t(zn(8), crab::variable_type(crab::INT_TYPE, 32)), crab::tag(3)); }});
+  T.push_back({"remove_ref", [&](z_basic_block_t &b) { b.remove_ref(V(VR1), V(VP)); }});
+  T.push_back({"load_from_ref", [&](z_basic_block_t &b) { b.load_from_ref(V(VX), V(VP), V(VR1)); }});
+  T.push_back({"store_to_ref_var", [&](z_basic_block_t &b) { b.store_to_ref(V(VP), V(VR1), voc_t(V(VX))); }});
+  T.push_back({"store_to_ref_cst", [&](z_basic_block_t &b) { b.store_to_ref(V(VP), V(VR1), voc_t(zn(5), crab::variable_type(crab::INT_TYPE, 32))); }});
+  T.push_back({"gep_ref", [&](z_basic_block_t &b) { b.gep_ref(V(VQ), V(VR2), V(VP), V(VR1), lx(VI, 4)); }});
+  T.push_back({"assume_ref", [&](z_basic_block_t &b) { b.assume_ref(refcst_t::mk_lt(V(VP), V(VQ), zn(4))); }});
+  T.push_back({"assert_ref", [&](z_basic_block_t &b) { b.assert_ref(refcst_t::mk_not_null(V(VP)), crab::cfg::debug_info("f.c", 9, 1, 42)); }});
+  T.push_back({"select_ref", [&](z_basic_block_t &b) { b.select_ref(V(VR), V(VR1), V(VB1), V(VP), V(VR1), V(VQ), V(VR2)); }});
+  T.push_back({"select_ref_null_true", [&](z_basic_block_t &b) { b.select_ref_null_true_value(V(VR), V(VR1), V(VB1), V(VQ), V(VR2)); }});
+  T.push_back({"select_ref_null_false", [&](z_basic_block_t &b) { b.select_ref_null_false_value(V(VR), V(VR1), V(VB1), V(VP), V(VR2)); }});
+  T.push_back({"int_to_ref", [&](z_basic_block_t &b) { b.int_to_ref(V(VX), V(VR1), V(VP)); }});
+  T.push_back({"ref_to_int", [&](z_basic_block_t &b) { b.ref_to_int(V(VR1), V(VP), V(VX)); }});
+  T.push_back({"bool_assign_cst", [&](z_basic_block_t &b) { b.bool_assign(V(VB1), le(VX, VY, 2)); }});
+  T.push_back({"bool_assign_refcst", [&](z_basic_block_t &b) { b.bool_assign(V(VB1), refcst_t::mk_eq(V(VP), V(VQ), zn(4))); }});
+  T.push_back({"bool_assign_var", [&](z_basic_block_t &b) { b.bool_assign(V(VB1), V(VB2), false); }});
+  T.push_back({"bool_not_assign", [&](z_basic_block_t &b) { b.bool_not_assign(V(VB1), V(VB2)); }});
+  T.push_back({"bool_assume", [&](z_basic_block_t &b) { b.bool_assume(V(VB1)); }});
+  T.push_back({"bool_not_assume", [&](z_basic_block_t &b) { b.bool_not_assume(V(VB1)); }});
+  T.push_back({"bool_assert", [&](z_basic_block_t &b) { b.bool_assert(V(VB1), crab::cfg::debug_info("f.c", 11, 2, 43)); }});
+  T.push_back({"bool_select", [&](z_basic_block_t &b) { b.bool_select(V(VB3), V(VB1), V(VB2), V(VB3)); }});
+  T.push_back({"bool_and", [&](z_basic_block_t &b) { b.bool_and(V(VB3), V(VB1), V(VB2)); }});
+  T.push_back({"bool_or", [&](z_basic_block_t &b) { b.bool_or(V(VB3), V(VB1), V(VB2)); }});
+  T.push_back({"bool_xor", [&](z_basic_block_t &b) { b.bool_xor(V(VB3), V(VB1), V(VB2)); }});
+
+  auto stmts_of = [](z_cfg_t &c) {
+    // statements in chain order entry -> ... (each block has at most one successor here)
+    std::vector<std::string> out;
+    std::set<std::string> seen;
+    std::string l = c.entry();
+    while (seen.insert(l).second) {
+      z_basic_block_t &bb = c.get_node(l);
+      for (auto &st : bb) {
+        crab::crab_string_os os;
+        os << st;
+        out.push_back(os.str());
+      }
+      auto nx = bb.next_blocks();
+      if (nx.first == nx.second) break;
+      l = *nx.first;
+    }
+    return out;
+  };
+  for (auto &kv : T) {
+    n_table++;
+    std::string spec = "table:" + kv.first;
+    vp::set_case(spec);
+    try {
+      z_cfg_t cfg("b0", "b2");
+      z_basic_block_t &b0 = cfg.insert("b0"), &b1 = cfg.insert("b1"), &b2 = cfg.insert("b2");
+      b0 >> b1;
+      b1 >> b2;
+      b0.assign(var(VW), lexp_t(zn(1)));
+      kv.second(b1);
+      b2.assign(var(VV), lexp_t(zn(2)));
+      std::vector<std::string> orig = stmts_of(cfg);
+      std::unique_ptr<z_cfg_t> c1(cfg.clone());
+      std::vector<std::string> cl = stmts_of(*c1);
+      if (cl != orig) {
+        vp::viol("cfg:clone:statement-changed:" + kv.first, spec, "cfg::clone() turned `" + (orig.size() > 1 ? orig[1] : "") + "` into `" + (cl.size() > 1 ? cl[1] : "") + "`");
+        continue;
+      }
+      std::unique_ptr<z_cfg_t> c2(cfg.clone());
+      c2->simplify();
+      std::vector<std::string> si = stmts_of(*c2);
+      if (si != orig)
+        vp::viol("cfg:simplify:statement-changed:" + kv.first, spec, "cfg::simplify() turned `" + (orig.size() > 1 ? orig[1] : "") + "` into `" + (si.size() > 1 ? si[1] : "?") + "`");
+    } catch (std::runtime_error &e) {
+      vp::viol("cfg:statement-table:abort:" + kv.first, spec, e.what());
+    }
+  }
+}
+
 int main(int argc, char **argv) {
   vp::parse_args(argc, argv);
   vp::install_crash_handler();
@@ -523,6 +658,11 @@ int main(int argc, char **argv) {
   if (th) { BOX = {-2, -1, 0, 1, 2}; VISITS = 2; }
   build_alphabet();
   int nalpha = (int)ALPHA.size();
+  if (!vp::args().replay.empty() && vp::args().replay.rfind("table:", 0) == 0) {
+    statement_table();
+    vp::finish();
+    return 0;
+  }
   if (!vp::args().replay.empty()) {
     auto f = vp::split(vp::args().replay, ':');
     ProgId id;
@@ -535,6 +675,7 @@ int main(int argc, char **argv) {
     vp::finish();
     return 0;
   }
+  if (PROP == "C17" && vp::args().slice == 0) statement_table();
   uint64_t caseno = 0;
   int maxn = vp::args().opt.count("maxn") ? atoi(vp::args().opt["maxn"].c_str()) : 3;
   for (int n = 1; n <= maxn; n++) {
@@ -576,6 +717,7 @@ int main(int argc, char **argv) {
     }
   }
 done:
+  vp::stat("statement_kinds_cloned_and_merged", n_table);
   vp::stat("programs", n_programs);
   vp::stat("states", n_traces + n_perturb + n_programs);
   vp::stat("transitions", n_transforms + n_paths + n_perturb);
